@@ -118,10 +118,25 @@ def run(repo: Repo, rep: Report, tier: str) -> None:
                 arg = _Sub().visit(copy.deepcopy(c.args[0])) if once else c.args[0]
                 seq = [("api" if RL.root(n) == api else "py") for n in names_in(RL.inline(arg, stop=(api, py))) if RL.root(n) in (api, py)]
                 orders.append(seq)
+    # the same two renderings as comprehensions (`entries = ["{}: {},".format(dumps(k), dumps(v)) for k, v in sorted(pairs)]` ... written line by line)
+    n_comp = 0
+    if len(floops) < 2:
+        for comp in [n for n in own_nodes(rd.node) if isinstance(n, (ast.ListComp, ast.GeneratorExp)) and len(n.generators) == 1]:
+            g = comp.generators[0]
+            if not (isinstance(g.target, ast.Tuple) and len(g.target.elts) == 2 and all(isinstance(e, ast.Name) for e in g.target.elts)) or g.ifs:
+                continue
+            if "field_mappings.items()" not in norm(RL.inline(g.iter, stop=tuple(RL.params))):
+                continue
+            api, py = g.target.elts[0].id, g.target.elts[1].id
+            seq = [("api" if n_ == api else "py") for n_ in names_in(comp.elt) if n_ in (api, py)]
+            if seq:
+                n_comp += 1
+                texts.append(full(comp.elt))
+                orders.append(seq)
     sub = f"{rd.module.relpath}:render_dataclass Meta key maps"
     # one line maps api->python, the other python->api, both from the same pairs
-    ok = len(floops) == 2 and sorted(map(tuple, orders)) == [("api", "py"), ("py", "api")]
-    if len(floops) < 2 or len(orders) < 2:
+    ok = (len(floops) + n_comp) == 2 and sorted(map(tuple, orders)) == [("api", "py"), ("py", "api")]
+    if (len(floops) + n_comp) < 2 or len(orders) < 2:
         # the two rendering loops over field_mappings were not recognised (comprehensions, helper, format()): the recogniser failed, not the code
         rep.error(f"R3.2: cannot find the two loops that render the Meta key maps from field_mappings in render_dataclass (found {len(floops)} loops, {len(orders)} written lines)")
     elif ok:
